@@ -17,7 +17,8 @@ RULE = ("rule-based state machine over the real module globals (guard, error-sup
         "flag OR some active condition is 0; LinComb.ONE is the guard inside and the safe constant outside; the constant "
         "k means k*guard inside and k outside; if_guard(fn) runs fn exactly when that conjunction is true; after a call tree or block walk the three globals are the identical "
         "objects as before. Non-trivial = history with an exceptional exit at depth >= 2 or a false guard under a true "
-        "one; distinct by history digest.")
+        "one, and every deterministic deep nesting (up to 150 / 200 levels, mixed forms, normal and exceptional exit); distinct by "
+        "history digest.")
 
 
 class Sentinel(Exception):
@@ -318,8 +319,65 @@ def shard(seed, n_examples, steps):
     return stats
 
 
+def deep_case(case):
+    """N regions nested inside each other (conditions given as a bit pattern, forms cycling through secret integer,
+    declared boolean and lazily evaluated branch), the invariant checked at every level on the way in, an optional
+    exception raised at the innermost level, and the state compared with the one before. Returns message or None."""
+    st_ = core.Stats()
+    m = make_machine(st_)()
+    rt, ns = m.rt, m.ns
+    n, bits, raises = case["depth"], case["bits"], case["raises"]
+    before = m.triple()
+    forms = ["lc", "bool", "ite"]
+
+    def level(k, conds):
+        m.check_inside(conds)
+        if k == n:
+            if raises:
+                raise Sentinel()
+            return rt.PrivVal(1)
+        v = bits[k % len(bits)]
+        form = forms[k % 3]
+        snap = m.triple()
+        try:
+            if form == "ite":
+                ns.br.if_then_else(ns.bo.PrivValBool(v), lambda: level(k + 1, conds + [v]), rt.PrivVal(0))
+            else:
+                rt.guarded(m.mkcond(v, form))(lambda: level(k + 1, conds + [v]))()
+        finally:
+            if any(a is not b for a, b in zip(snap, m.triple())):
+                m.fail("guard state after the region at nesting level %d of %d is not the state before it" % (k, n))
+        m.check_inside(conds)
+        return rt.PrivVal(1)
+    try:
+        try:
+            level(0, [])
+        except Sentinel:
+            if not raises:
+                raise
+        if any(a is not b for a, b in zip(before, m.triple())):
+            m.fail("guard state after %d nested regions is not the state before them" % n)
+        m.check_inside([])
+    except core.Violation as v:
+        return v.msg
+    return None
+
+
+def deep_shard(cases):
+    stats = core.Stats()
+    for case in cases:
+        msg = deep_case(case)
+        stats.case(case, True, ("deep-nesting:%d" % case["depth"],), sample_cap=2)
+        if msg:
+            stats.violations.append({"case": case, "msg": msg, "key": "deep"})
+            break
+    return stats
+
+
 def replay(case):
     """re-execute a recorded history without Hypothesis"""
+    if case.get("part") == "deep":
+        return deep_case(case)
     st_ = core.Stats()
     M = make_machine(st_)
     m = M()
@@ -361,3 +419,8 @@ def run(ctx):
     else:
         jobs = [dict(seed=ctx.seed * 1000 + 100 + i, n_examples=2000, steps=60) for i in range(16)]
     ctx.stats = core.run_shards("harness.checks.c08", "shard", jobs)
+    # deterministic deep nestings (the machine stays shallow): depth x condition pattern x normal / exceptional exit
+    deep = [{"part": "deep", "depth": n, "bits": bits, "raises": r}
+            for n in ([1, 2, 3, 17, 64, 150] if ctx.tier == "quick" else [1, 2, 3, 5, 17, 33, 64, 100, 150, 200])
+            for bits in ([1], [0], [1, 1, 1, 0], [0, 1], [1, 1, 1, 1, 1, 1, 1, 1, 1, 1, 1, 1, 1, 1, 1, 1, 0]) for r in (False, True)]
+    ctx.stats.merge_json(core.run_shards("harness.checks.c08", "deep_shard", [dict(cases=deep[i::8]) for i in range(8)]).to_json())
